@@ -25,7 +25,7 @@ LEVEL_TEXT = ("Scenarios restricted to the v1 vocabulary (discrete/continuous re
               "be identical. Runs with the grid section omitted / optional sections omitted must equal the explicit ones.")
 LEVEL_NOTE = "The TOML text is produced by the harness's own writer and read by ladim through tomli; with diffusion > 0 the tracker's rng is re-seeded identically by the harness in every run so that outputs are comparable exactly."
 RULE = ("case = scenario spec; renderings yaml2, toml2, yaml1 (+ grid-omitted, sections-omitted variants). Non-trivial: several release times or continuous release and moving water; distinct by spec.")
-MANDATORY = ["configure_dicts_compared", "plugin_gridforce", "version_key_omitted", "yaml2_vs_toml2", "yaml2_vs_yaml1", "grid_omitted_pairs", "wildcard_forcing", "optional_sections_omitted_pairs", "continuous", "discrete", "subgrid", "diffusion_seeded",
+MANDATORY = ["v1_discrete_with_release_frequency", "configure_dicts_compared", "plugin_gridforce", "version_key_omitted", "yaml2_vs_toml2", "yaml2_vs_yaml1", "grid_omitted_pairs", "wildcard_forcing", "optional_sections_omitted_pairs", "continuous", "discrete", "subgrid", "diffusion_seeded",
              "particle_variable_column", "values_compared"]
 ASSUMPTIONS = ["only what the v1 vocabulary can express"]
 TIMEOUT = {"quick": 900, "thorough": 3400}
@@ -178,6 +178,9 @@ def renderings(sp: dict[str, Any], wd: Path, w, rls: Path, names: list[str]) -> 
         v1["particle_release"]["cohort"] = "float"
     if sp["cont"]:
         v1["particle_release"].update(release_type="continuous", release_frequency=sp["freq"] * dt)
+    elif sp["seed"] % 2:
+        # valid v1: a discrete release that still carries a release_frequency entry (the docs show both keys side by side)
+        v1["particle_release"].update(release_type="discrete", release_frequency=sp["freq"] * dt)
     if sp["ibm"]:
         v1["ibm"] = dict(ibm_module=C.REC_IBM, variables=["age"], age=True, log=False)
     for k in ivars + pvars:
@@ -330,6 +333,7 @@ def run_case(case: dict[str, Any], wd: Path) -> dict[str, Any]:
             if diff:
                 V.append(C.viol(f"configure() of the {other} spelling describes a different simulation than the YAML v2 spelling: {str(diff)[:500]}", **desc))
     sit["plugin_gridforce"] = int(sp["plugin_gridforce"])
+    sit["v1_discrete_with_release_frequency"] = int(not sp["cont"] and sp["seed"] % 2 == 1)
     sit["version_key_omitted"] = int(not sp["version_key"])
     base = outs.get("yaml2")
     if base is not None:
